@@ -71,7 +71,9 @@ impl Command for CommandImpl {
                         let mut buffer: Vec<u8> = vec![];
                         match write(&mut buffer, &properties) {
                             Ok(_) => match str::from_utf8(&buffer) {
-                                Ok(text) => CommandResult::Continue(Some(text.trim().to_string())),
+                                Ok(text) => CommandResult::Continue(Some(
+                                    text.trim_end_matches(|c| c == '\n' || c == '\r').to_string(),
+                                )),
                                 Err(error) => CommandResult::Error(error.to_string()),
                             },
                             Err(error) => CommandResult::Error(error.to_string()),
